@@ -326,6 +326,10 @@ fn run_failure_case(tw: &c16::TcpWorld, h2: bool, who: char) -> Result<(), Strin
                 let (over, body): (bool, Vec<u8>) = match (st.as_mut(), h1.as_mut()) {
                     (Some(s), _) => {
                         s.poll();
+                        if s.ended && !s.failed {
+                            // (HTTP/2 can tell the two apart: END_STREAM is a complete answer, RST_STREAM a broken one)
+                            return Err("the origin aborted its connection (TCP reset) in the middle of the exchange; the client's stream was ended cleanly, as if the answer were complete".to_string());
+                        }
                         (s.ended || s.failed, s.received.clone())
                     }
                     (_, Some(h)) => {
